@@ -113,7 +113,7 @@ CHECKS = {
         "level": "exploration",
         "technique": "property-based testing (rapid) over generated stage programs, trace equality against a recursive reference interpreter, concurrent requests sharing the chain",
         "level_text": "Generated-program exploration: every stage of a chain is a small program over its continuation (0..3 calls, substituted message, derived context, last/first/substituted/error result); the same programs are run through the real client chain (scripted in-memory server as transport), the server message chain and the server batch-item chain, and through a 30-line recursive interpreter of the compositional semantics; event traces and the caller's result must be equal for every concurrent request.",
-        "level_note": "For the client chain the context reaching the transport is not observable; core executions are counted at the scripted server. Batch-item stages return a non-nil item together with an error, as that API requires.",
+        "level_note": "For the client chain the context reaching the transport is not observable; core executions are counted at the scripted server. Batch-item stages return their error with an item of their own or with a nil item (the usual Go form).",
         "jobs": [dict(rapid("server", "TestC19Chains", 4000, 30000), race=True)],
         "assumptions": [],
     },
